@@ -133,6 +133,16 @@ pub mod controls {
     pub fn control_unwrap<R: Read>(src: &mut R) -> i32 {
         src.read_i32::<LittleEndian>().unwrap()
     }
+    /// accumulator control: a fold whose closure forgets the accumulator loses every error but the last.
+    pub fn control_fold_drops_error<W: Write>(dest: &mut W, codes: &[i32]) -> std::io::Result<()> {
+        codes
+            .iter()
+            .fold(Ok(()), |_, c| dest.write_i32::<LittleEndian>(*c))
+    }
+    /// discarding-consumer control: the Results of a fallible closure are counted, not looked at.
+    pub fn control_count_discards<W: Write>(dest: &mut W, codes: &[i32]) -> usize {
+        codes.iter().map(|c| dest.write_i32::<LittleEndian>(*c)).count()
+    }
     /// C20.order control: a reordering adaptor on a coordinate path.
     pub fn control_reorder(v: Vec<shapefile::Point>) -> Vec<shapefile::Point> {
         v.into_iter().rev().collect()
